@@ -565,6 +565,26 @@ fn check_config(ctx: &mut Ctx, c: &ConfigCase) -> Res {
             }
         }
     }
+    // with per-client statistics on, workers publish snapshots every status_interval/10: keep traffic flowing for a
+    // while so that several snapshots are taken under load ("time service continues")
+    if cfg.client_stats {
+        let end = Instant::now() + Duration::from_millis(1500);
+        let socks: Vec<UdpSocket> = (0..8).map(|_| UdpSocket::bind("127.0.0.1:0").unwrap()).collect();
+        let mut unanswered = 0;
+        while Instant::now() < end {
+            for sock in &socks {
+                k += 1;
+                let req = fresh_request(Proto::Classic, b"c15s", k);
+                if exchange(sock, s.addr(), &req, Duration::from_millis(500)).is_none() {
+                    unanswered += 1;
+                }
+            }
+        }
+        if unanswered > 0 && s.udp_drops() == 0 {
+            let names = s.thread_names();
+            return ctx.fail("time-service-degrades-with-client-stats", format!("{}: {} requests unanswered during 1.5 s of steady traffic; workers alive: {} of {}", tag, unanswered, live_workers(&names), n));
+        }
+    }
     // liveness after 1 s, no panic text
     std::thread::sleep(Duration::from_secs(1));
     let names = s.thread_names();
@@ -615,6 +635,9 @@ fn c15_pairwise() -> Vec<ConfigCase> {
             }
         }
     }
+    // statistics snapshots every 100 ms on several workers
+    out.push(ConfigCase { workers: Some(4), health: false, batch_size: Some(64), fault: Some(0), status_interval: Some(1), stats: true, via_env: false, special: 0 });
+    out.push(ConfigCase { workers: Some(2), health: true, batch_size: Some(2), fault: Some(0), status_interval: Some(1), stats: true, via_env: true, special: 0 });
     // defaults left unwritten, all 16 workers
     out.push(ConfigCase { workers: None, health: false, batch_size: None, fault: None, status_interval: None, stats: false, via_env: true, special: 0 });
     out.push(ConfigCase { workers: Some(16), health: true, batch_size: Some(64), fault: Some(0), status_interval: Some(600), stats: false, via_env: true, special: 0 });
@@ -796,7 +819,7 @@ fn check_campaign(ctx: &mut Ctx, c: &Campaign) -> Res {
         return Ok(());
     }
     let r0 = &c.rounds[0];
-    let cfg = SrvCfg { seed_hex: GOOD_SEED.into(), workers: Some(r0.workers as u64), batch_size: Some(r0.batch_size as u32), client_stats: r0.stats, status_interval: Some(10), ..Default::default() };
+    let cfg = SrvCfg { seed_hex: GOOD_SEED.into(), workers: Some(r0.workers as u64), batch_size: Some(r0.batch_size as u32), client_stats: r0.stats, status_interval: Some(1), ..Default::default() };
     let mut s = match ServerProc::start(&cfg) {
         Ok(s) => s,
         Err(e) => {
